@@ -37,6 +37,9 @@ CHECKS = {
  "C03": ("engine-b", "model_checking", B,
          "every netlist of the input space - API-built base designs x variants (undefined direction, reversed declaration order, bus base index 5 with pins listed in another order, 1-pin array ports, names needing rename, typed properties), the F_hier family incl. leaves declared after their users, and reader-built netlists (bundled .edf, independent-writer texts: idempotence) - is written by the real composer and read back by the real reader and by an independent s-expression interpreter; name-keyed canonical structures must agree",
          "bounded: see coverage.bounds_completed; library/cell order and port base index not compared (not in the statement); trusted: vlib/canon.py, vlib/sexpr.py"),
+ "C17": ("engine-b", "model_checking", B,
+         "the composer's renaming pass (real code) on every ordered pair of sibling names of length <= 2 / <= 3 over a 13-character adversarial alphabet, triples of 1-character names, pre-existing x_sdn_N_ names in every processing order, length-boundary families (254..300, shared prefixes); every namespace scope end to end through compose + parse; identifiers legal (independent regex), pairwise distinct ignoring case, rename recorded, re-read names equal the originals",
+         "bounded alphabet and lengths as stated; net names of the form name[i] excluded end-to-end (claimed by the reader's bus convention)"),
 }
 m = {
  "version": 1,
